@@ -15,7 +15,7 @@ func init() {
 	register("C11", &monitor{
 		run: runC11,
 		rule: "(1) parameter-domain edges enumerated: every surrogate, negative, out-of-range and boundary rune for every rune-taking method and all 256 bytes for every byte-taking method of StringBuilder, the SafePrinter (Sprintfn and SafeFormat) and ManualBuffer in every mode, each in 5 buffer states; every reflect.Kind, nil and typed nil for JoinTo; every prefix of 40 hostile formats x 6 operand lists; nil and typed-nil operands through all routes; " +
-			"(2) user methods that panic at every position of a script (SafeFormat, SafeMessage, String, Error, Format, GoString; 6 payload modes), at top level, between literals, inside containers and inside nested Print/Printf; " +
+			"(2) user methods that panic at every position of a script (SafeFormat, SafeMessage, String, Error, Format, GoString; 8 payload modes (incl. a typed nil pointer whose own method dereferences it, alone and inside a slice)), at top level, between literals, inside containers and inside nested Print/Printf; " +
 			"oracle: no panic escapes a public call (except where the payload's own printing panics, as in fmt), output well-formed and line-safe, text written before the failing element identical to the text of the same call cut at that element, PANIC= report in place with the payload inside an envelope, text after it intact; " +
 			"non-trivial = an edge value outside the valid domain or a contained panic was observed; distinct = distinct cases",
 	})
@@ -227,8 +227,13 @@ func c11formats(c *Ctx) {
 
 // panicText is what the payload of mode m prints as.
 func panicText(mode int, msg string) string {
-	if mode == 3 {
+	switch mode {
+	case 3:
 		return "assignment to entry in nil map"
+	case 6:
+		return "<nil>"
+	case 7:
+		return "[<nil>]"
 	}
 	return msg
 }
@@ -250,7 +255,7 @@ func c11panics(c *Ctx) {
 	msgs := []string{"boom", "b" + startM + "m", "line\nfeed", "", "é日", "%v%!", endM}
 	c.ParallelFor(n, func(w *Worker, i int64) {
 		r := newRng(c.Seed, 0xc11, uint64(i))
-		pc := c11panicCase{Mode: r.Intn(4), Msg: msgs[r.Intn(len(msgs))], Shape: shapes[r.Intn(len(shapes))], Method: methods[r.Intn(len(methods))]}
+		pc := c11panicCase{Mode: []int{0, 1, 2, 3, 6, 7}[r.Intn(6)], Msg: msgs[r.Intn(len(msgs))], Shape: shapes[r.Intn(len(shapes))], Method: methods[r.Intn(len(methods))]}
 		nsteps := r.Intn(5)
 		for k := 0; k < nsteps; k++ {
 			st := randStep(r, 1, o)
@@ -399,7 +404,7 @@ func c11panicCheck(w *Worker, pc c11panicCase, idx int64) {
 		return
 	}
 	// The payload is unsafe: with envelopes deleted it must be gone.
-	if pc.Msg != "" && pc.Mode != 3 {
+	if pc.Msg != "" && pc.Mode < 3 {
 		p := parse(full)
 		so := safeOnly(p)
 		if i := strings.Index(so, report); i >= 0 {
@@ -531,6 +536,86 @@ func c11nils(c *Ctx) {
 
 type fmtStringerNil interface{ String() string }
 
+// ---- StringWithoutMarkers: the remaining entry point that runs a user method ---------------------
+
+type tValSF struct{ s string }
+
+func (v tValSF) SafeFormat(p redact.SafePrinter, _ rune) { p.SafeString(interfaces.SafeString(v.s)) }
+
+type tPtrSF struct{ s string }
+
+func (v *tPtrSF) SafeFormat(p redact.SafePrinter, _ rune) { p.UnsafeString(v.s) } // dereferences its receiver
+
+// c11withoutMarkers: StringWithoutMarkers(f) never panics where Sprint(f) does not, and is Sprint(f) without markers:
+// SafeFormat methods that panic at every position of a script (the text written before stays), nil receivers, the nil interface.
+func c11withoutMarkers(c *Ctx) {
+	o := genOpts{invalidUTF8: false, redactKinds: true, panics: false, safeKinds: true, maxDepth: 1}
+	n := c.pick(60000, 600000)
+	c.ParallelFor(n, func(w *Worker, i int64) {
+		r := newRng(c.Seed, 0xc11f, uint64(i))
+		bc := newBuildCtx()
+		bc.memo = map[*D]interface{}{}
+		var f redact.SafeFormatter
+		var desc string
+		switch k := r.Intn(10); {
+		case k == 0:
+			f, desc = nil, "nil interface"
+		case k == 1:
+			f, desc = (*tValSF)(nil), "nil pointer, value-receiver SafeFormat"
+		case k == 2:
+			f, desc = (*tPtrSF)(nil), "nil pointer, dereferencing SafeFormat"
+		case k == 3:
+			f, desc = (*redact.StringBuilder)(nil), "nil *StringBuilder"
+		default:
+			var steps []*D
+			for j, m := 0, r.Intn(5); j < m; j++ {
+				st := randStep(r, 1, o)
+				if st.K == "sVerb" {
+					st = dS("sSafeString", "v")
+				}
+				steps = append(steps, st)
+			}
+			at := r.Intn(len(steps) + 1)
+			if k < 9 {
+				mode := []int{0, 1, 2, 3, 6, 7}[r.Intn(6)]
+				steps = append(steps[:at:at], append([]*D{{K: "sPanic", S: "boom" + startM, N: int64(mode)}}, steps[at:]...)...)
+				desc = "SafeFormat script panicking at step " + itoa(at) + " (mode " + itoa(mode) + ")"
+			} else {
+				desc = "SafeFormat script"
+			}
+			f = tSafeFmt{steps, func() *buildCtx { return bc }}
+			desc += ": " + sprint(len(steps)) + " steps"
+		}
+		cs := func() interface{} { return map[string]interface{}{"formatter": desc} }
+		var ref, got string
+		refPan := func() (p interface{}) {
+			defer func() { p = recover() }()
+			ref = redact.Sprint(f).StripMarkers()
+			return nil
+		}()
+		bc.resetCounters()
+		gotPan := func() (p interface{}) {
+			defer func() { p = recover() }()
+			got = redact.StringWithoutMarkers(f)
+			return nil
+		}()
+		w.Eval(2)
+		if refPan != nil {
+			w.Count("sprint_panicked_too", 1)
+			return
+		}
+		if gotPan != nil {
+			w.Violate("C11 StringWithoutMarkers-panic", "StringWithoutMarkers panicked ("+pvalString(gotPan)+") where Sprint prints "+q(ref)+": "+desc, cs())
+			return
+		}
+		if got != ref {
+			w.Violate("C11 StringWithoutMarkers-text", "StringWithoutMarkers gives "+q(got)+", Sprint(f).StripMarkers() gives "+q(ref)+": "+desc, cs())
+			return
+		}
+		w.Nontrivial(hashStrs("swm", desc, got))
+	})
+}
+
 func runC11(c *Ctx) {
 	registerStdTypes()
 	c11edges(c)
@@ -539,6 +624,7 @@ func runC11(c *Ctx) {
 	c11nils(c)
 	c11panics(c)
 	c11doublePanics(c)
+	c11withoutMarkers(c)
 	c.res.Bound = "rune edges: all 2048 surrogates + 18 boundary values; all 256 bytes; 5 buffer states x 4 implementations; 44 JoinTo operand types x 4 delimiters; every prefix of 40 hostile formats x 6 operand lists x 6 routes; 21 nil-ish operands x 58 verbs x 4 flag forms x 6 routes"
 	c.res.Assumptions = []string{"outside the claim, per the statement: Grow with a negative count, memory exhaustion; nil destinations/callbacks are programmer errors, not values to print", "a panic raised while printing a panic payload propagates, as in fmt (checked against fmt in C04)"}
 }
